@@ -196,10 +196,14 @@ impl<K: Clone, V: Clone, S: Clone, A: Allocator + Clone> Clone for HashMap<K, V,
     }
 
     fn clone_from(&mut self, source: &Self) {
+        // Clone the hasher first: if `S::clone` panics, `self` has not been
+        // touched yet and stays consistent with its own hasher.
+        let hash_builder = source.hash_builder.clone();
+
         self.table.clone_from(&source.table);
 
         // Update hash_builder only if we successfully cloned all elements.
-        self.hash_builder.clone_from(&source.hash_builder);
+        self.hash_builder = hash_builder;
     }
 }
 
